@@ -112,7 +112,11 @@ class Sim(object):
     return y.numpy().astype(np.float64).reshape(len(x), -1)[:, 0]
 
   def finite(self):
-    return all(np.all(np.isfinite(v.numpy())) for v in self.model.variables)
+    """Weights finite and below 1e6 (DESIGN 2.5 rule 2: beyond that products of
+    several factors - Kronecker-factored lattices - overflow float32)."""
+    return all(np.all(np.isfinite(v.numpy())) and
+               (v.numpy().size == 0 or np.max(np.abs(v.numpy())) <= 1e6)
+               for v in self.model.variables)
 
   # ---- operations
   def _batch(self, seed, n=16):
@@ -343,7 +347,7 @@ def play(desc, ops):
     else:
       raise ValueError(name)
     if not sim.finite():
-      out.label("ended:non-finite-weights")
+      out.label("ended:weights-non-finite-or-beyond-1e6")
       break
     judge(sim, out, name)
     if any(v["sig"].get("kind") == "finite" for v in out.violations):
